@@ -492,6 +492,7 @@ class WatchConn:
         self.close_reason: Optional[str] = None
         self.silenced = False
         self.pending: list[bytes] = []
+        self.outbox: collections.deque[tuple[str, Any]] = collections.deque()  # FIFO on the wire
         watch.sink = self._on_server_event
 
     def start(self, d2: float, backlog: list[dict[str, Any]]) -> None:
@@ -601,9 +602,27 @@ class WatchConn:
         if t <= self.last_delivery:
             t = self.last_delivery  # FIFO per connection; equal instants keep their queue order
         self.last_delivery = t
+        if fault is not None and fault['action'].get('kind') == 'event-delay':
+            sim.log('fault-echo', self.cid, meta.get('name'), meta.get('resourceVersion'), sim.now, t)
         for ev in extra:
-            sim.at(t, self._deliver, ev)
-        sim.at(t, self._deliver, event)
+            self._enqueue(t, 'deliver', ev)
+        self._enqueue(t, 'deliver', event)
+
+    def _enqueue(self, t: float, what: str, arg: Any) -> None:
+        # Whatever the tie order among simultaneous external events is, one connection is FIFO.
+        self.outbox.append((what, arg))
+        self.sim.at(t, self._pump)
+
+    def _pump(self) -> None:
+        if not self.outbox:
+            return
+        what, arg = self.outbox.popleft()
+        if what == 'deliver':
+            self._deliver(arg)
+        elif what == 'eof':
+            self._eof(arg)
+        elif what == 'break':
+            self._break(arg[0], arg[1])
 
     def _schedule_break(self, kind: str, act: dict[str, Any]) -> None:
         t = max(self.last_delivery, self.sim.now + act.get('after', 0.0))
@@ -611,17 +630,17 @@ class WatchConn:
         self.watch.sink = None
         self.net.cluster.close_watch(self.watch)
         if kind == 'stream-eof':
-            self.sim.at(t, self._eof, 'fault-eof')
+            self._enqueue(t, 'eof', 'fault-eof')
         elif kind == 'stream-timeout':
-            self.sim.at(t, self._break, 'TimeoutError', 'fault-timeout')
+            self._enqueue(t, 'break', ('TimeoutError', 'fault-timeout'))
         else:
-            self.sim.at(t, self._break, act.get('exc', 'ClientPayloadError'), 'fault-reset')
+            self._enqueue(t, 'break', (act.get('exc', 'ClientPayloadError'), 'fault-reset'))
 
     def _schedule_eof(self, reason: str) -> None:
         t = max(self.last_delivery, self.sim.now + self.net.latency(
             self.net.watch_lat_lo, self.net.watch_lat_hi, 'eof', self.cid))
         self.last_delivery = t
-        self.sim.at(t, self._eof, reason)
+        self._enqueue(t, 'eof', reason)
 
     def server_close(self, reason: str) -> None:
         if not self.closed:
